@@ -16,10 +16,12 @@ from concurrent.futures import ThreadPoolExecutor
 import vlib
 from vlib import hexs
 
-REQUIRED = ['tree_is_as_modelled', 'upgrade_clean', 'only_tls_replies_trusted', 'ext_relearned', 'expect_tls_enforced',
-            'route_settings_kept', 'pinned_cert_enforced_partial', 'pinned_cert_enforced_counterexample',
-            'tlsa_enforced_partial', 'tlsa_enforced_counterexample', 'tls_required_when_tlsa_found',
-            'injected_cleartext_counterexample', 'forgotten_route_counterexample']
+REQUIRED = ['tree_is_as_modelled', 'tree_fixed', 'upgrade_clean', 'only_tls_replies_trusted', 'only_tls_replies_trusted_tree',
+            'ext_relearned', 'ext_relearned_tree', 'expect_tls_enforced', 'expect_tls_enforced_tree', 'route_settings_kept',
+            'pinned_cert_enforced_partial', 'pinned_cert_enforced_counterexample',
+            'tlsa_enforced_partial', 'tlsa_enforced_first_host', 'tlsa_enforced_counterexample', 'tls_required_when_tlsa_found',
+            'injected_cleartext_counterexample', 'injected_cleartext_refused', 'forgotten_route_counterexample', 'forgotten_route_refused',
+            'stale_session_counterexample', 'stale_session_repaired']
 
 HELO = b'client.example'
 CORR = 'model QsmtpModel.StartTlsCli.run vs qremote/{conn_mx,starttlsr,greeting,reply,qremote}.c + lib/netio.c'
@@ -335,7 +337,7 @@ def known_class(f, case, impl, clause):
     if f.get('id') == 'c18-tlsa-of-first-mx':
         return 'tlsa-unverified' in clause and h[0] != t[4]
     if f.get('id') == 'c18-pinned-without-starttls':
-        return 'pinned-unverified' in clause and not ssl and (ext & 4) == 0 and h[10] == 'g' and t[2] == '0'
+        return 'pinned-unverified' in clause and not ssl and (ext & 4) == 0 and h[10] in 'gi' and t[2] == '0'
     return False
 
 
@@ -365,7 +367,7 @@ def scenarios():
     S.append((Sc('starttls-garbage-reply', [B(starttls_reply=b'go ahead\r\n', cert=None)]), [], None))
     S.append((Sc('handshake-garbage', [B(handshake='garbage')]), [], None))
     S.append((Sc('handshake-close', [B(handshake='close')]), [], None))
-    S.append((Sc('handshake-fails-next-mx', [B(handshake='close'), B(cert='valid2')]), [(1, 'T')], None))
+    S.append((Sc('handshake-fails-next-mx', [B(handshake='garbage'), B(cert='valid2')]), [(1, 'T')], None))
     S.append((Sc('tls-silent', [B(ehlo_tls='silent')]), [], None))
     for kind, ok in (('valid', True), ('expired', False), ('wrongname', False), ('selfsigned', False), ('otherca', False)):
         S.append((Sc('pinned-' + kind, [B(cert=kind)], pinned={0: 'ca.pem'}), [(0, 'T')] if ok else [], None))
@@ -615,7 +617,7 @@ def run(ctx):
     results = run_scenarios(ctx)
     judge_scenarios(ctx, results)
     if not ctx.quick():
-        vlib.leanchecker(ctx, ['QsmtpModel.Props.C18', 'QsmtpModel.Lemmas.StartTlsCli'])
+        vlib.leanchecker(ctx, ['QsmtpModel.Props.C18', 'QsmtpModel.Lemmas.StartTlsConn', 'QsmtpModel.Lemmas.StartTlsPhases', 'QsmtpModel.Lemmas.StartTlsSim', 'QsmtpModel.Lemmas.StartTlsCli'])
     return vlib.finish(ctx, assumptions=ASSUMPTIONS,
                        extra_cov={'tls_scenarios': [{k: r[k] for k in ('name', 'expected', 'observed', 'model', 'fails')} for r in results]})
 
